@@ -33,6 +33,12 @@ func TestC20F_UnitConversion(t *testing.T) {
 		if x1.Cmp(x2) > 0 {
 			x1, x2 = x2, x1
 		}
+		// the helpers must price with the rate they are handed, whatever the header records
+		headerRate := env.Rate
+		if rapid.Bool().Draw(t, "headerRateDiffers") {
+			env.HeaderRate = c20fMul(new(big.Int).Add(env.Rate, big.NewInt(3)), 7)
+			headerRate = env.HeaderRate
+		}
 		h := env.header()
 		dump := env.dump()
 		dump["x1"], dump["x2"] = x1.String(), x2.String()
@@ -112,6 +118,9 @@ func TestC20F_UnitConversion(t *testing.T) {
 		if env.Rate.Sign() == 0 {
 			labels = append(labels, "rate_zero")
 		}
+		if env.HeaderRate != nil {
+			labels = append(labels, "header_rate_differs_from_argument")
+		}
 
 		// ComputeConversionAmountInQuai over a small inbound set
 		un := c20fAddrs()
@@ -128,7 +137,7 @@ func TestC20F_UnitConversion(t *testing.T) {
 			case 2, 3: // Qi -> Quai
 				etxs = append(etxs, c20fETX(types.ConversionType, un.quai, un.qi, v, uint16(i), nil))
 				if v.Sign() != 0 {
-					want.Add(want, misc.QiToQuai(h, env.Rate, env.Difficulty, v))
+					want.Add(want, new(big.Int).Quo(new(big.Int).Mul(misc.CalculateQuaiReward(h.WorkObjectHeader(), env.Difficulty, headerRate), v), ir))
 				}
 			case 4:
 				etxs = append(etxs, c20fETX(types.DefaultType, un.quai, un.quai2, v, uint16(i), nil))
